@@ -3,12 +3,15 @@ import binascii
 
 hx = lambda b: binascii.hexlify(b if isinstance(b, (bytes, bytearray)) else b.encode()).decode()
 BASE = "@W@"       # replaced by the shard's scratch directory by the runner (same string on both sides)
+ABS = "@@W@@ABS@@" # inside hex-encoded fields (paths, link targets, requests): the scratch directory's absolute path WITHOUT its leading slash;
+                   # to oracles it is one path component, to the server several - lookups agree because nothing else lives under it
 NAMES = ["a.txt", "b.html", "c", "d.tar.gz", "é.png", "x.html", "index.html", "page", "sub", "s2", "style.css", "404.html", "data.bin",
          ".hidden", "a b", "q&r.txt", "up.js", "f.HTML", "noext.", "k.json", "a#f", "m.svg", "v.mp4", "deep", "w.wasm", "t.TXT", "n.tar", "z.min.js",
          "notes..txt", "..rc", "x..", "...", "v1..v2.html", "v1..2", "..d", "rel..", "a..b..c"]      # consecutive dots that are not a parent-directory segment
 RANGES = ["bytes=0-", "bytes=2-5", "bytes=-3", "bytes=9-9", "bytes=10-10", "bytes=0-10", "bytes=0-11", "bytes=-11", "bytes=5-2", "bytes=0-0,2-3",
           "bytes= 1 - 2 , 4-4", "bytes=a-b", "bytes=1-18446744073709551615", "bytes=1-18446744073709551616", "bytes=--1", "bytes=", "bytes=,,",
-          "items=0-1", "bytes=-0", "bytes=0-1=2-3", "bytes=-18446744073709551615", "bytes=0-0", "bytes=1-1,3-3,5-5", "bytes=-1", "bytes=0-,1-"]
+          "items=0-1", "bytes=-0", "bytes=0-1=2-3", "bytes=-18446744073709551615", "bytes=0-0", "bytes=1-1,3-3,5-5", "bytes=-1", "bytes=0-,1-",
+          "bytes=0-3, 5000-6000", "bytes=0-0,a-b", "bytes=0-1,9-2", "bytes=0-0,-0", "bytes=0-0,2-2,99999-"]       # several ranges of which a later one is refused
 SECRET = b"SECRET-"
 
 
@@ -55,8 +58,8 @@ def gen_tree(rnd, maxents=8, sizes=(0, 1, 2, 10, 10, 300), depth_bias=0.5):
         elif k < 0.8:
             t.ents.append(("D", p)); t.dirs.append(p)
         else:
-            tgt = rnd.choice(["a.txt", "../secret5.txt", "../../secret0.txt", "sub", "../root/a.txt", "nonexist", BASE + "/outer/secret5.txt", ".",
-                              "../rootx", "s2/..", "/", "../" * 12 + BASE + "/outer/secret5.txt", "../" * 6 + "x", "a:b", "x:/a.txt",
+            tgt = rnd.choice(["a.txt", "../secret5.txt", "../../secret0.txt", "sub", "../root/a.txt", "nonexist", "/" + ABS + "/outer/secret5.txt", ".",
+                              "../rootx", "s2/..", "/", "../" * 12 + ABS + "/outer/secret5.txt", "../" * 6 + "x", "a:b", "x:/a.txt",
                               "./a.txt", "sub/../a.txt"])
             t.ents.append(("L", p, tgt))
     if rnd.random() < 0.1:
@@ -72,7 +75,7 @@ def gen_tree(rnd, maxents=8, sizes=(0, 1, 2, 10, 10, 300), depth_bias=0.5):
     if rnd.random() < 0.06:
         # a copy, INSIDE the served directory, of the absolute path of the marked file outside it: a target that is that absolute path with one
         # more slash in front must get the inside copy (base + path), never the outside file (a join that lets an absolute path replace the base)
-        t.ents.append(("F", "outer/root" + BASE + "/outer/secret5.txt", b"inside-copy-at-the-mirrored-path"))
+        t.ents.append(("F", "outer/root/" + ABS + "/outer/secret5.txt", b"inside-copy-at-the-mirrored-path"))
     if rnd.random() < 0.1 and not t.has("outer/root/rel") and not t.has("outer/root/latest") and not t.has("outer/notes.txt"):
         # a link to a link: the second one lives in a sub-directory and climbs one level, staying inside the root; resolved from the first
         # link's directory it would name the marked file of the same name one level above the root
@@ -98,8 +101,8 @@ def gen_target(rnd, t):
     r = rnd.random()
     if t.has("outer/root/sub/up.txt") and rnd.random() < 0.5:
         return "/sub/up.txt"
-    if t.has("outer/root" + BASE + "/outer/secret5.txt") and rnd.random() < 0.6:
-        return rnd.choice(["/" + BASE + "/outer/secret5.txt", BASE + "/outer/secret5.txt", "//" + BASE + "/outer/secret5.txt", "/." + BASE + "/outer/secret5.txt"])
+    if t.has("outer/root/" + ABS + "/outer/secret5.txt") and rnd.random() < 0.6:
+        return rnd.choice(["//" + ABS + "/outer/secret5.txt", "/" + ABS + "/outer/secret5.txt", "///" + ABS + "/outer/secret5.txt", "/.//" + ABS + "/outer/secret5.txt"])
     if t.has("outer/root/latest") and rnd.random() < 0.5:
         return rnd.choice(["/latest", "/latest", "/rel/current", "/latest?x=1"])
     dotted = [x for x in inroot if ".." in x]
@@ -159,6 +162,8 @@ def gen_cors(rnd):
 def gen_origin(rnd, origins):
     pool = ["https://foo.example", "https://foo", "", "https://evil.example", "https://bar.example", "example", "https://foo.example,https://bar.example",
             "HTTPS://FOO.EXAMPLE", ",", "https://foo.example,", "a", "b", "a,b", "foo.example", "https://foo.example: 8443", "https://bar.example: x", "a: b", " https://foo.example", "https://foo.example "]
+    if rnd.random() < 0.04:
+        return "https://" + "a" * rnd.choice([3000, 7000, 7600, 9000]) + ".example"          # a reflected value of several kilobytes (still inside the request buffer, or just not)
     return rnd.choice(pool)
 
 
@@ -195,7 +200,7 @@ def serve_case(rnd, kind="serve", tree=None, target=None, method=None, headers=N
     if headers is None:
         if rnd.random() < 0.3: hs.append("Range: " + rnd.choice(RANGES))
         if rnd.random() < 0.35: hs.append("Origin: " + gen_origin(rnd, origins))
-        if meth == "OPTIONS" and rnd.random() < 0.7: hs += ["Access-Control-Request-Method: PUT", "Access-Control-Request-Headers: X-A, Content-Type"]
+        if meth == "OPTIONS" and rnd.random() < 0.7: hs += ["Access-Control-Request-Method: PUT", "Access-Control-Request-Headers: " + ("X-A, Content-Type" if rnd.random() < 0.9 else ", ".join("X-H%d" % j for j in range(rnd.choice([300, 600]))))]
     if raw_req is None and rnd.random() < 0.35 and len(body) < 3000:
         # headers every client sends and the server has no use for, before, between and after the ones the case is about
         for _ in range(rnd.randint(1, 3)):
